@@ -733,6 +733,7 @@ package parser
 //@   ensures [posting_lines] forall i int, k int :: {result.Transactions[i].Postings[k]} 0 <= i && i < len(result.Transactions) && 0 <= k && k < len(result.Transactions[i].Postings) ==> PLine(result.Transactions[i].Postings[k], len(p.lexer.input))
 //@   ensures [C08:tx_ranges] forall i int :: {result.Transactions[i]} 0 <= i && i < len(result.Transactions) ==> TxRangeOK(result.Transactions[i], len(p.lexer.input))
 //@   ensures [C08:tx_ordered] forall i int, j int :: {result.Transactions[i]; result.Transactions[j]} 0 <= i && i < j && j < len(result.Transactions) ==> result.Transactions[i].Range.End.Line <= result.Transactions[j].Range.Start.Line
+//@   ensures [C08:tx_inside_document] forall i int :: {result.Transactions[i]} 0 <= i && i < len(result.Transactions) ==> result.Transactions[i].Range.End.Line <= NL(p.lexer.input)
 //@   modifies p.current, p.errors, p.defaultYear, p.lexer.pos, p.lexer.column, p.lexer.line, p.lexer.atStart
 //@   loop 1 invariant ParInv(p) && PFrame(p) && journal != nil && fresh(journal)
 //@   loop 1 invariant forall i int :: {journal.Transactions[i]} 0 <= i && i < len(journal.Transactions) ==> TxRangeOK(journal.Transactions[i], len(p.lexer.input)) && journal.Transactions[i].Range.End.Line <= p.current.Pos.Line
@@ -826,4 +827,5 @@ package parser
 //@   ensures [posting_lines] forall i int, k int :: {result0.Transactions[i].Postings[k]} 0 <= i && i < len(result0.Transactions) && 0 <= k && k < len(result0.Transactions[i].Postings) ==> PLine(result0.Transactions[i].Postings[k], len(input))
 //@   ensures [C08:tx_ranges] forall i int :: {result0.Transactions[i]} 0 <= i && i < len(result0.Transactions) ==> TxRangeOK(result0.Transactions[i], len(input))
 //@   ensures [C08:tx_ordered] forall i int, j int :: {result0.Transactions[i]; result0.Transactions[j]} 0 <= i && i < j && j < len(result0.Transactions) ==> result0.Transactions[i].Range.End.Line <= result0.Transactions[j].Range.Start.Line
+//@   ensures [C08:tx_inside_document] forall i int :: {result0.Transactions[i]} 0 <= i && i < len(result0.Transactions) ==> result0.Transactions[i].Range.End.Line <= NL(input)
 //@   ensures [C08:errpos] forall k int :: {result1[k]} 0 <= k && k < len(result1) ==> PosIn(result1[k].Pos, len(input))
